@@ -246,6 +246,10 @@ type Frame struct {
 	loopEntry  map[int]map[string]string // loop ordinal -> heap snapshot at loop entry (for old-at-entry)
 	loopEntryCnt map[int]map[string]string
 	loopEntryNames map[int]map[string]Val
+	iterStart      map[int]map[string]string // loop ordinal -> heap snapshot at the start of the current iteration (after havoc)
+	iterStartCnt   map[int]map[string]string
+	iterStartNames map[int]map[string]Val
+	lastRecvOk     string // "ok" of the most recent channel receive in this frame ("" = none yet)
 	nameAlias map[string]ssa.Value
 	parent     *Frame
 	lockSnap map[string]string
